@@ -21,11 +21,12 @@ STREAM = 'tree'
 FINAL = ('SUCCESS', 'ERROR', 'CANCELLED')
 SKIP_SIG = {'kind': 'cancel-skips-running-descendants-of-a-finished-child'}
 LATE_SIG = {'kind': 'subworkflow-started-below-cancelled-workflow'}
+LOST_SIG = {'kind': 'post-commit-operation-lost-after-expire-all'}
 RESTOP_SIG = {'kind': 'second-stop-success-rewrites-message-and-reports-again'}
 
 
 # ======================================================================================= generator
-def gen_case(rng, p_ops=0.85):
+def gen_case(rng, p_ops=0.85, p_pause=0.35, resume_items=False):
     depth = rng.choice([2, 2, 3, 3, 3])
     defs = []
     for lvl in range(depth):
@@ -63,13 +64,33 @@ def gen_case(rng, p_ops=0.85):
     if rng.random() < p_ops:
         n = rng.choice([1, 1, 2, 3])
         at = 0
+        paused = False
+        # resume x with-items callers (resume_items): when a resumed with-items child completes inside the resume
+        # transaction, check_and_complete()'s expire_all() expires + detaches the ScheduledJob objects the
+        # scheduler keeps in memory; those update jobs leave the scheduler's memory and only run after the store
+        # poller's pickup delay, which this harness cannot deliver one at a time (docs/C10.md)
+        has_items = any(t['kind'] != 'action' and t['kind'].get('items') is not None for d in defs for t in d)
         for i in range(n):
             at += rng.randint(1, 30 if i == 0 else 12)
-            case['ops'].append({'at': at, 'op': 'stop', 'state': rng.choice(['CANCELLED', 'CANCELLED', 'CANCELLED', 'ERROR', 'SUCCESS']),
-                                'which': rng.randint(0, 7),
-                                'pref': rng.choice(['running', 'running', 'inner', 'root', 'any', 'finished', 'item'] +
-                                                   (['again', 'again', 'parent', 'parent'] if i else [])),
-                                'msg': 'msg%d' % i})
+            prefs = ['running', 'running', 'inner', 'root', 'any', 'finished', 'item'] + \
+                (['again', 'again', 'parent', 'parent'] if i else [])
+            r = rng.random()
+            if paused and r < 0.45 and (resume_items or not has_items):
+                o = {'at': at, 'op': 'resume', 'which': rng.randint(0, 7),
+                     'pref': rng.choice(['paused', 'paused', 'root', 'again', 'any'])}
+                paused = False
+            elif r < p_pause:
+                o = {'at': at, 'op': 'pause', 'which': rng.randint(0, 7), 'pref': rng.choice(prefs)}
+                paused = True
+            else:
+                o = {'at': at, 'op': 'stop', 'state': rng.choice(['CANCELLED', 'CANCELLED', 'CANCELLED', 'ERROR', 'SUCCESS']),
+                     'which': rng.randint(0, 7), 'pref': rng.choice(prefs + (['root', 'root', 'paused'] if paused else [])),
+                     'msg': 'msg%d' % i}
+                if paused and rng.random() < 0.5:
+                    # pause-then-cancel: PAUSED sub-workflows below PAUSED tasks must be cancelled too
+                    o['state'] = 'CANCELLED'
+                    o['pref'] = rng.choice(['root', 'root', 'parent', 'again'])
+            case['ops'].append(o)
     return case
 
 
@@ -136,20 +157,33 @@ class Mapper(object):
                 return o
         return None
 
+    @staticmethod
+    def _pk(obj):
+        """primary key of an ORM object without touching the database (the object may be expired + detached)"""
+        try:
+            from sqlalchemy import inspect
+            ident = inspect(obj).identity
+            if ident:
+                return ident[0]
+        except Exception:
+            pass
+        return obj.id
+
     def op_item(self, op):
         func, args, in_tx = op
         name = getattr(func, '__name__', '')
         if name == '_start_task':
-            return {'k': 'postStartTask', 'n': self.task_rank.get(func.__defaults__[0].task_ex.id)}
+            return {'k': 'postStartTask', 'n': self.task_rank.get(self._pk(func.__defaults__[0].task_ex)),
+                    'first': bool(func.__defaults__[1])}
         if name == '_run_action':
             o = self._cell(func, lambda o: hasattr(o, 'task_ex') and hasattr(o, 'action_ex'))
-            return {'k': 'postRunAction', 'n': self.task_rank.get(o.task_ex.id)} if o is not None else None
+            return {'k': 'postRunAction', 'n': self.task_rank.get(self._pk(o.task_ex))} if o is not None else None
         if name == '_check':
             o = self._cell(func, lambda o: hasattr(o, 'wf_ex') and hasattr(o, 'task_ex'))
-            return {'k': 'postCheck', 'n': self.wf_rank.get(o.wf_ex.id)} if o is not None else None
+            return {'k': 'postCheck', 'n': self.wf_rank.get(self._pk(o.wf_ex))} if o is not None else None
         if name == '_send_result':
             o = self._cell(func, lambda o: hasattr(o, 'wf_ex') and hasattr(o, 'wf_spec'))
-            return {'k': 'postSendResult', 'n': self.wf_rank.get(o.wf_ex.id), '_wf': o.wf_ex.id} if o is not None else None
+            return {'k': 'postSendResult', 'n': self.wf_rank.get(self._pk(o.wf_ex)), '_wf': self._pk(o.wf_ex)} if o is not None else None
         if name == '_start_subworkflow':
             p = self._cell(func, lambda o: isinstance(o, dict) and 'task_execution_id' in o)
             return {'k': 'postStartSub', 'n': self.task_rank.get(p['task_execution_id']), 'idx': p['index']} if p else None
@@ -160,14 +194,16 @@ class Mapper(object):
         if kind == 'job':
             if x.func_name.endswith('_scheduled_on_action_complete') and x.func_args.get('wf_action'):
                 return {'k': 'jobChildComplete', 'n': self.wf_rank.get(x.func_args['action_ex_id'])}
+            if x.func_name.endswith('_scheduled_on_action_update') and x.func_args.get('wf_action'):
+                return {'k': 'jobChildUpdate', 'n': self.wf_rank.get(x.func_args['action_ex_id'])}
             return None
         if x.kind == 'posttx':
             return self.op_item(x.data[0])
         if x.kind == 'rpc':
             m = x.data['method']
             kw = x.data['kwargs']
-            if m == 'start_task' and kw.get('first_run'):
-                return {'k': 'rpcStartTask', 'n': self.task_rank.get(kw['task_ex_id'])}
+            if m == 'start_task':
+                return {'k': 'rpcStartTask', 'n': self.task_rank.get(kw['task_ex_id']), 'first': bool(kw.get('first_run'))}
             if m == 'on_action_complete':
                 if kw.get('wf_action'):
                     return {'k': 'rpcChildResult', 'n': self.wf_rank.get(kw['action_ex_id']), '_wf': kw['action_ex_id']}
@@ -230,6 +266,8 @@ def fmt(i):
     k = i['k']
     if k == 'rpcResult':
         return '%s:%d:%s' % (k, i['n'], 'true' if i['ok'] else 'false')
+    if k in ('postStartTask', 'rpcStartTask'):
+        return '%s:%d:%s' % (k, i['n'], 'true' if i.get('first', True) else 'false')
     if k in ('postStartSub', 'rpcStartSub'):
         return '%s:%d:%d' % (k, i['n'], i['idx'])
     return '%s:%d' % (k, i['n'])
@@ -245,7 +283,7 @@ def real_obs(world, mp):
     for x in s['wfs']:
         execs.append([int(x['name'][1:]), trank.get(x['parent_task']) if x['parent_task'] is not None else None,
                       x['index'] or 0, x['state'], mp.info(x['state_info']), mp.out(x['output']), x['accepted'],
-                      mp.sent.get(x['id'], 0), mp.got.get(x['id'], 0)])
+                      mp.sent.get(x['id'], 0), mp.got.get(x['id'], 0), x['backlog']])
     tasks = []
     for t in s['tasks']:
         wi = (t['rt'] or {}).get('with_items')
@@ -270,14 +308,15 @@ def run_case(case, script=None, max_steps=500):
     from harness.engine_driver import EngineWorld
     from harness import engine_run as er
     from harness import subwf_stream
-    w = EngineWorld(seed=case['seed'])
+    # sequential ids: the database lists rows in creation order (the order `continue_workflow` walks the tasks)
+    w = EngineWorld(seed=case['seed'], id_mode='seq')
     subwf_stream._fast_schema_validation()
     rng = random.Random(case['seed'])
     cfg.CONF.set_override('start_subworkflows_via_rpc', bool(case['viaRpc']), group='engine')
     try:
         y = build_yaml(case)
         w.create_workflows(y)
-        msgs = [o['msg'] for o in case['ops']] + [e['msg'] for e in (script or []) if e.get('ev') == 'stop']
+        msgs = [o['msg'] for o in case['ops'] if o.get('msg')] + [e['msg'] for e in (script or []) if e.get('ev') == 'stop']
         mp = Mapper(w, msgs)
         forced = {}
 
@@ -289,13 +328,26 @@ def run_case(case, script=None, max_steps=500):
         events = []
         robs = []
         unsupported = None
+        lost = []
+        swallowed = []
+        from mistral.engine import post_tx_queue as _ptq
+
+        def _log_exception(msg, *a, **k):
+            import sys as _sys
+            swallowed.append(type(_sys.exc_info()[1]).__name__)
+        saved_log_exception = _ptq.LOG.exception
+        _ptq.LOG.exception = _log_exception
         last_target = [0]
 
-        def do_stop(wf_rank, state, msg):
+        def do_stop(wf_rank, state, msg, op='stop'):
             ids = [i for i, k in mp.wf_rank.items() if k == wf_rank]
             n_err = len(w.errors)
-            w.op('stop_workflow', ids[0] if ids else 'no-such-id', state, msg)
-            events.append({'ev': 'stop', 'wf': wf_rank, 'state': state, 'msg': msg})
+            if op == 'stop':
+                w.op('stop_workflow', ids[0] if ids else 'no-such-id', state, msg)
+                events.append({'ev': 'stop', 'wf': wf_rank, 'state': state, 'msg': msg})
+            else:
+                w.op(op + '_workflow', ids[0] if ids else 'no-such-id')
+                events.append({'ev': op, 'wf': wf_rank})
             robs.append(real_obs(w, mp))
             # the entry point raised (declared WorkflowException: invalid transition) and rolled back
             robs[-1]['raised'] = len(w.errors) > n_err
@@ -311,8 +363,16 @@ def run_case(case, script=None, max_steps=500):
             else:
                 if mi['k'] == 'rpcChildResult':
                     mp.got[mi['_wf']] = mp.got.get(mi['_wf'], 0) + 1
+                del swallowed[:]
                 w.deliver(it, oracle=oracle)
-                events.append({'ev': 'deliver', 'item': {k: v for k, v in mi.items() if not k.startswith('_')}})
+                item = {k: v for k, v in mi.items() if not k.startswith('_')}
+                if swallowed and it[0] == 'p' and it[1].kind == 'posttx':
+                    # post_tx_queue swallowed the exception of this (non-transactional) operation: what it
+                    # would have sent is lost
+                    lost.append({'item': item, 'type': swallowed[0], 'step': len(events)})
+                    events.append({'ev': 'lose', 'item': item})
+                else:
+                    events.append({'ev': 'deliver', 'item': item})
             robs.append(real_obs(w, mp))
 
         w.start_workflow('w0', {})
@@ -322,8 +382,8 @@ def run_case(case, script=None, max_steps=500):
         exhausted = False
         if script is not None:
             for e in script[1:]:
-                if e['ev'] == 'stop':
-                    do_stop(e['wf'], e['state'], e['msg'])
+                if e['ev'] in ('stop', 'pause', 'resume'):
+                    do_stop(e['wf'], e.get('state'), e.get('msg'), op=e['ev'])
                     continue
                 en = _enabled(w)
                 want = e['item'] if e['ev'] == 'deliver' else {'k': 'runAction', 'n': e['t']}
@@ -346,7 +406,14 @@ def run_case(case, script=None, max_steps=500):
             while oi < len(ops) and ops[oi]['at'] <= step:
                 o = ops[oi]
                 oi += 1
-                do_stop(_choose(robs[-1], o, last_target[0]), o['state'], o['msg'])
+                tgt = _choose(robs[-1], o, last_target[0])
+                if o['op'] in ('pause', 'resume') and robs[-1]['execs'][tgt][3] in FINAL and \
+                        any(t[6] is not None for t in robs[-1]['tasks']):
+                    # pause / resume of a FINISHED execution raises and is rolled back; with a with-items task in the
+                    # tree the update jobs scheduled inside that transaction stay in the scheduler's memory but are
+                    # dropped when they fail to capture their (rolled back) row: not modelled (docs/C10.md), not generated
+                    continue
+                do_stop(tgt, o.get('state'), o.get('msg'), op=o['op'])
             en = _enabled(w)
             if not en:
                 if oi < len(ops):
@@ -360,10 +427,14 @@ def run_case(case, script=None, max_steps=500):
                 break
             deliver(it, mi)
             step += 1
-        return {'yaml': y, 'events': events, 'real': robs, 'unsupported': unsupported,
+        return {'yaml': y, 'events': events, 'real': robs, 'unsupported': unsupported, 'lost': lost,
                 'errors': [{k: e.get(k) for k in ('where', 'declared', 'type', 'msg')} for e in w.errors],
                 'exhausted': exhausted}
     finally:
+        try:
+            _ptq.LOG.exception = saved_log_exception
+        except NameError:
+            pass
         cfg.CONF.clear_override('start_subworkflows_via_rpc', group='engine')
 
 
@@ -385,6 +456,8 @@ def _choose(obs, o, last=0):
     if pref == 'item':
         cand = [i for i in cand if ex[i][3] == 'RUNNING' and ex[i][1] is not None
                 and obs['tasks'][ex[i][1]][6] is not None] or [i for i in cand if ex[i][3] == 'RUNNING'] or cand
+    if pref == 'paused':
+        cand = [i for i in cand if ex[i][3] == 'PAUSED'] or cand
     if pref == 'finished':
         cand = [i for i in cand if ex[i][3] in FINAL] or cand
     if pref == 'running':
@@ -422,6 +495,8 @@ def monitor(run):
     for e in run['errors']:
         if not e['declared']:
             hits.append(('undeclared-error', {'kind': 'undeclared-error', 'type': e['type']}, e))
+    for l in run.get('lost', []):
+        hits.append(('post-commit-operation-lost', dict(LOST_SIG, op=l['item']['k'], type=l['type']), l))
     frozen = {}      # execution -> (state, info, out) once final
     ntasks_at_final = {}
     for k, o in enumerate(obs):
@@ -484,7 +559,9 @@ def monitor(run):
                     if ex[3] != 'CANCELLED':
                         hits.append(('descendant-not-cancelled', sig,
                                      {'cancelled': a, 'exec': x, 'state': ex[3], 'finished-on-path': blocked, 'step': k}))
-                    elif last['tasks'][ex[1]][2] != 'CANCELLED':
+                    elif last['tasks'][ex[1]][2] != 'CANCELLED' and \
+                            before['tasks'][ex[1]][2] not in ('SUCCESS', 'ERROR', 'CANCELLED'):
+                        # (a task that was already completed when the cancel came keeps its state)
                         hits.append(('parent-task-not-cancelled', {'kind': 'parent-task-not-cancelled'},
                                      {'cancelled': a, 'exec': x, 'task': ex[1], 'task_state': last['tasks'][ex[1]][2]}))
         # "No new task is created ... (nor, after a cancel, anywhere below it)"
@@ -523,6 +600,63 @@ def monitor(run):
     return hits
 
 
+PAUSE_SKIP_SIG = {'kind': 'pause-skips-running-descendants-of-a-finished-child'}
+
+
+def monitor_pause(run):
+    """The statement of C10 (first sentence) read on the real rows.  Returns [(kind, signature, detail)]."""
+    hits = []
+    ev = run['events']
+    obs = run['real']
+    for e in run['errors']:
+        if not e['declared']:
+            hits.append(('undeclared-error', {'kind': 'undeclared-error', 'type': e['type']}, e))
+    for l in run.get('lost', []):
+        hits.append(('post-commit-operation-lost', dict(LOST_SIG, op=l['item']['k'], type=l['type']), l))
+    for k in range(1, len(obs)):
+        b, a, e = obs[k - 1], obs[k], ev[k]
+        # "Pause creates no new tasks": no task row appears in an execution that is PAUSED before and after
+        for i, x in enumerate(b['execs']):
+            if x[3] == 'PAUSED' and i < len(a['execs']) and a['execs'][i][3] == 'PAUSED':
+                if len([t for t in a['tasks'] if t[0] == i]) != len([t for t in b['tasks'] if t[0] == i]):
+                    hits.append(('task-created-while-paused', {'kind': 'task-created-while-paused'},
+                                 {'exec': i, 'step': k, 'event': e}))
+        if e.get('ev') not in ('pause', 'resume') or a.get('raised') or e['wf'] >= len(b['execs']):
+            continue
+        tgt = e['wf']
+        par = _parent_of(b)
+        if e['ev'] == 'pause':
+            # "After a pause request is acknowledged the workflow and its running sub-workflows are PAUSED"
+            if b['execs'][tgt][3] == 'RUNNING' and a['execs'][tgt][3] != 'PAUSED':
+                hits.append(('pause-not-applied', {'kind': 'pause-not-applied'}, {'exec': tgt, 'step': k,
+                                                                                    'after': a['execs'][tgt][3]}))
+            if b['execs'][tgt][3] not in ('RUNNING', 'PAUSED'):
+                continue
+            for x, ex in enumerate(b['execs']):
+                anc = _ancestors(par, x)
+                if tgt not in anc or ex[3] != 'RUNNING':
+                    continue
+                blocked = [p for p in anc[:anc.index(tgt)] if b['execs'][p][3] in FINAL]
+                if a['execs'][x][3] != 'PAUSED':
+                    hits.append(('running-descendant-not-paused',
+                                 dict(PAUSE_SKIP_SIG) if blocked else {'kind': 'running-descendant-not-paused'},
+                                 {'paused': tgt, 'exec': x, 'state': a['execs'][x][3], 'finished-on-path': blocked, 'step': k}))
+        else:
+            if b['execs'][tgt][3] != 'PAUSED':
+                continue
+            if a['execs'][tgt][3] == 'PAUSED':
+                hits.append(('resume-not-applied', {'kind': 'resume-not-applied'}, {'exec': tgt, 'step': k}))
+            for x, ex in enumerate(b['execs']):
+                anc = _ancestors(par, x)
+                if tgt not in anc or ex[3] != 'PAUSED':
+                    continue
+                blocked = [p for p in anc[:anc.index(tgt)] if b['execs'][p][3] in FINAL]
+                if a['execs'][x][3] == 'PAUSED' and not blocked:
+                    hits.append(('paused-descendant-not-resumed', {'kind': 'paused-descendant-not-resumed'},
+                                 {'resumed': tgt, 'exec': x, 'step': k}))
+    return hits
+
+
 def features(run):
     f = set()
     last = run['real'][-1]
@@ -535,6 +669,17 @@ def features(run):
         if e[7] > 1:
             f.add('success-reported-again')
     for k, e in enumerate(run['events']):
+        if e.get('ev') in ('pause', 'resume'):
+            f.add(e['ev'])
+            if k and e['wf'] < len(run['real'][k - 1]['execs']):
+                b = run['real'][k - 1]['execs'][e['wf']]
+                f.add(e['ev'] + '-on-' + b[3])
+                f.add(e['ev'] + ('-inner' if b[1] is not None else '-root'))
+                n = len([1 for x, c in enumerate(run['real'][k]['execs'])
+                         if x < len(run['real'][k - 1]['execs']) and c[3] != run['real'][k - 1]['execs'][x][3]])
+                f.add('%s-changed-in-one-tx:%d' % (e['ev'], min(n, 4)))
+            if run['real'][k].get('raised'):
+                f.add(e['ev'] + '-raised')
         if e.get('ev') == 'stop':
             f.add('stop-' + e['state'])
             if k and e['wf'] < len(run['real'][k - 1]['execs']):
@@ -566,7 +711,7 @@ def _first(ctx, sig):
     return True
 
 
-def check_case(ctx, case, script=None, origin='gen', expect=None):
+def check_case(ctx, case, script=None, origin='gen', expect=None, props=('C11',)):
     run = run_case(case, script=script)
     drv = ctx.driver()
     cfgj = {'defs': case['defs'], 'viaRpc': bool(case['viaRpc'])}
@@ -588,7 +733,7 @@ def check_case(ctx, case, script=None, origin='gen', expect=None):
             if t['kind'] != 'action':
                 ctx.count(STREAM, 'call:' + ('items' if t['kind'].get('items') is not None else 'plain')
                           + (':conc' if t['kind'].get('conc') else ''))
-    ctx.evaluated(STREAM, [case, script], nontrivial=any(x.startswith('stop-') for x in f))
+    ctx.evaluated(STREAM, [case, script], nontrivial=any(x.startswith(('stop-', 'pause', 'resume')) for x in f))
     if not isinstance(mo, list):
         ctx.disagree(STREAM, {'case': case, 'events': run['events']}, mo, 'model refused the input')
         return run
@@ -602,14 +747,14 @@ def check_case(ctx, case, script=None, origin='gen', expect=None):
             ctx.count(STREAM, 'disagree-at:' + run['events'][k].get('ev', '?') + ':' +
                       str((run['events'][k].get('item') or {}).get('k', run['events'][k].get('state', ''))))
             break
-    hits = monitor(run)
+    hits = (monitor(run) if 'C11' in props else []) + (monitor_pause(run) if 'C10' in props else [])
     kinds = set()
     for kind, sig, det in hits:
         ctx.count(STREAM, 'hit:' + sig['kind'])
         kinds.add(sig['kind'])
         if not _first(ctx, sig):
             continue
-        ctx.violation('C11 tree monitor %s: %s' % (kind, json.dumps(det, default=str)[:400]),
+        ctx.violation('%s tree monitor %s: %s' % ('/'.join(props), kind, json.dumps(det, default=str)[:400]),
                       {'kind': 'tree', 'case': case, 'script': run['events'], 'hit': [kind, det]}, sig)
     if expect is not None and not (set(expect) <= kinds):
         ctx.disagree(STREAM, {'what': 'witness-no-longer-fails', 'case': case, 'script': script}, sorted(expect), sorted(kinds))
@@ -618,26 +763,28 @@ def check_case(ctx, case, script=None, origin='gen', expect=None):
     return run
 
 
-def run_corpus(ctx):
+def run_corpus(ctx, props=('C11',)):
     import glob
     import os
     from vlib import core
-    for f in sorted(glob.glob(os.path.join(core.VERIF, 'corpus', 'C11', 'tree_*.json'))):
-        with open(f) as fh:
-            c = json.load(fh)
-        check_case(ctx, c['case'], script=c.get('script'), origin='corpus', expect=c.get('expect'))
-        ctx.count('corpus', 'tree')
+    for prop in props:
+        for f in sorted(glob.glob(os.path.join(core.VERIF, 'corpus', prop, 'tree_*.json'))):
+            with open(f) as fh:
+                c = json.load(fh)
+            check_case(ctx, c['case'], script=c.get('script'), origin='corpus', expect=c.get('expect'), props=props)
+            ctx.count('corpus', 'tree')
 
 
-def run_replay(ctx, r):
-    return check_case(ctx, r['case'], script=r.get('script'), origin='replay')
+def run_replay(ctx, r, props=('C11',)):
+    return check_case(ctx, r['case'], script=r.get('script'), origin='replay', props=props)
 
 
-def run_chunk(ctx, n_cases, gen_kw=None):
+def run_chunk(ctx, n_cases, gen_kw=None, props=('C11',)):
     from harness import boot
     boot.boot()
     rng = ctx.rng
+    props = tuple(props)
     if getattr(ctx, 'chunk', 0) == 0:
-        run_corpus(ctx)
+        run_corpus(ctx, props)
     for _ in range(n_cases):
-        check_case(ctx, gen_case(rng, **(gen_kw or {})))
+        check_case(ctx, gen_case(rng, **(gen_kw or {})), props=props)
